@@ -381,7 +381,7 @@ def frac_of(t):
     return Fraction(float(t))
 
 
-def small_frac(t, maxden=64):
+def small_frac(t, maxden=256):
     """a float32 that is the rounding of n/d with small d -> n/d (checked to 1e-6)"""
     v = float(t)
     f = Fraction(v).limit_denominator(maxden)
